@@ -440,12 +440,14 @@ void (*ON_UNIT)(bool, bool, const char *, size_t, bool, bool); void (*ON_PHASE)(
 
 void sch_eager(struct sched *s) { memset(s, 0, sizeof *s); s->mode = SCH_EAGER; }
 void sch_bern(struct sched *s, unsigned pct, uint64_t seed) { memset(s, 0, sizeof *s); s->mode = SCH_BERNOULLI; s->pct = pct; pr_seed(&s->pr, seed, 77); }
+void sch_periodic(struct sched *s, unsigned period, unsigned phase) { memset(s, 0, sizeof *s); s->mode = SCH_PERIODIC; s->pct = period ? period : 1; s->pos = phase % s->pct; }
 void sch_bits(struct sched *s, const uint8_t *bits, size_t n) { memset(s, 0, sizeof *s); s->mode = SCH_BITS; s->bits = bits; s->nbits = n; }
 static bool sch_ready(struct sched *s)
 {
         switch (s->mode) {
         case SCH_BERNOULLI: return pr_pct(&s->pr, s->pct);
         case SCH_BITS: if (s->pos < s->nbits) return s->bits[s->pos++] != 0; return true;
+        case SCH_PERIODIC: return (unsigned long)CUR_STEP % s->pct == (unsigned long)s->pos;      /* ready in every pct-th service call (time-based, whatever was attempted before) */
         default: return true;
         }
 }
@@ -464,10 +466,8 @@ static int mx_lock(void)
         int r = 0;
         if (ON_LOCK_WAIT) ON_LOCK_WAIT(k);      /* the caller waits for the mutex here: whoever holds it may complete whole API calls meanwhile */
         if (k == MX_FAIL_LOCK_AT) r = 1;
-        else {
-                if (MX_DEPTH != 0) viol("C16", "lock-while-held", "mutex->lock called while the lock is already held");
-                MX_DEPTH = 1;
-        }
+        else if (MX_DEPTH != 0) { viol("C16", "lock-while-held", "mutex->lock called while the lock is already held"); r = 1; }      /* a non-recursive mutex: the attempt fails (a real one would deadlock) */
+        else MX_DEPTH = 1;
         ev(EV_LOCK, k, r, 0);
         if (ON_LOCK) ON_LOCK(true, r);
         return r;
@@ -705,8 +705,13 @@ cat_status svc(void)
         }
         CUR_STEP++;
         if (SHADOW) shadow_step();          /* the other parser instance is serviced in turns with the one under observation */
+        long l0 = MX_LOCKS, u0 = MX_UNLOCKS;
         cat_status s = cat_service(W.at);
         PHASE = 0;
+        if (W.use_mutex && ON_LOCK_WAIT == NULL) {
+                if (MX_LOCKS - l0 != 1) viol("C16", "lock-taken-twice", "cat_service called mutex->lock %ld times in one call", MX_LOCKS - l0);
+                else if (s != CAT_STATUS_ERROR_MUTEX_LOCK && MX_UNLOCKS - u0 != 1) viol("C16", "unlock-count", "cat_service called mutex->unlock %ld times in one call", MX_UNLOCKS - u0);
+        }
         if (RAW_COMPARES) object_invariants();
         return s;
 }
@@ -910,10 +915,35 @@ void io_describe(FILE *f)
 /* background event traffic for checks whose subject is the command FSM: an unsolicited READ / TEST of a dedicated command is formatted and
  * flushed while the line under test is parsed and answered (state shared between the two machines by mistake then shows up in those checks) */
 struct cat_command *NOISE_CMD; unsigned NOISE_PM; static prng_t NZ = { 0x9E3779B97F4A7C15ULL };
+/* the background command has its own read / test handlers (they do not go through POLICY: the check in charge never sees them).  They do what application
+ * handlers usually do - look at the text, report its length through *data_size, sometimes replace it - and they verify what they are handed (C06: "read and
+ * test handlers receive the automatically formatted response text, its length and the true capacity") */
+static const char NZ_READ[] = "~N=42,A0A1A2A3A4A5A6A7A8A9AAABACADAEAFB0B1B2B3B4B5B6B7,\"n\\\"z,\\\\q\"";
+static const char NZ_TEST[] = "~N=<UINT8[RW]>,<HEXBUF[RW]>,<STRING[RO]>";
+static cat_return_state nz_handler(const struct cat_command *cmd, uint8_t *d, size_t *n, size_t m, const char *want, bool exact)
+{
+        (void)cmd;
+        need_lock("noise handler");
+        size_t wl = strlen(want), L = strnlen((const char *)d, m);
+        if (PHASE != 1) viol("C10", "wrong-handler", "handler of an event-only command invoked outside the event step");
+        if (m != W.capU) viol("C06", "max-data-size", "event handler told a capacity of %zu, the event buffer has %zu", m, W.capU);
+        if (L >= m || *n != L || strncmp((const char *)d, want, wl) != 0 || (exact && L != wl))
+                viol("C06", "response-text", "handler of the background event was handed \"%.70s\" (size %zu), the automatic text is \"%s\"...", (const char *)d, *n, want);
+        CNT("background_event_handler_calls");
+        unsigned r = pr_n(&NZ, 10);
+        if (r < 4) { *n = L; return CAT_RETURN_STATE_DATA_OK; }                                   /* the usual "*data_size = strlen(data)" */
+        if (r < 6 && m >= 8) { *n = (size_t)snprintf((char *)d, m, "~nz%u", pr_n(&NZ, 100)); return CAT_RETURN_STATE_DATA_OK; }
+        if (r < 7) { *n = L; return CAT_RETURN_STATE_DATA_NEXT; }                                 /* once more: the next pass is another call */
+        if (r < 8) return CAT_RETURN_STATE_NEXT;
+        return r < 9 ? CAT_RETURN_STATE_OK : CAT_RETURN_STATE_ERROR;
+}
+static cat_return_state nz_read(const struct cat_command *c, uint8_t *d, size_t *n, size_t m) { return nz_handler(c, d, n, m, NZ_READ, true); }
+static cat_return_state nz_test(const struct cat_command *c, uint8_t *d, size_t *n, size_t m) { return nz_handler(c, d, n, m, NZ_TEST, false); }
 void w_noise_group(unsigned per_mille)
 {
         struct cat_command *a = w_group(1, false);
         a[0].name = xstr("~N"); a[0].description = xstr("noise");
+        if (pr_pct(&G, 60)) { a[0].read = nz_read; a[0].test = nz_test; }
         struct cat_variable *v = w_vars(&a[0], 3);
         v[0].type = CAT_VAR_UINT_DEC; { uint8_t *d = w_vdata(&v[0], 1); *d = 42; }
         v[1].type = CAT_VAR_BUF_HEX; { uint8_t *d = w_vdata(&v[1], 24); for (int i = 0; i < 24; i++) d[i] = (uint8_t)(0xA0 + i); }
